@@ -17,6 +17,7 @@ package main
 // the two runs, so that Discharge mints the same tokens in both.
 
 import (
+	"bytes"
 	"context"
 	crand "crypto/rand"
 	"fmt"
@@ -69,12 +70,22 @@ func lruKeys(vc *bundle.VerificationCache) []string {
 	return out[0].Interface().([]string)
 }
 
+// which order the model sorts the candidates in: "kid" = stable by ticket id (the code as it is
+// now); VERIF_CACHE_ORDER=text selects the model of the string-sorted key (the code as found)
+var cacheOrder = envOr("VERIF_CACHE_ORDER", "kid")
+
+// replica of the cache key: candidates sorted as the cache sorts them, then the permission token
 func cacheKey(perm bundle.Macaroon, diss []bundle.Macaroon) string {
-	ss := make([]string, len(diss))
-	for i, d := range diss {
+	ds := append([]bundle.Macaroon{}, diss...)
+	if cacheOrder == "text" {
+		sort.SliceStable(ds, func(i, j int) bool { return ds[i].String() < ds[j].String() })
+	} else {
+		sort.SliceStable(ds, func(i, j int) bool { return bytes.Compare(ds[i].Nonce().KID, ds[j].Nonce().KID) < 0 })
+	}
+	ss := make([]string, len(ds))
+	for i, d := range ds {
 		ss[i] = d.String()
 	}
-	sort.Strings(ss)
 	return strings.Join(append(ss, perm.String()), ",")
 }
 
@@ -98,6 +109,9 @@ func (v *logVerifier) Verify(ctx context.Context, dbp map[bundle.Macaroon][]bund
 	return ret
 }
 
+// keys of queries whose candidate list holds two different discharges for one ticket
+var twoCandKeys = map[string]bool{}
+
 // the queries a Verify call on b will make (replica of dischargesByPermission, as key strings)
 func queryKeys(b *bundle.Bundle) []string {
 	ms := macsOf(b)
@@ -118,7 +132,15 @@ func queryKeys(b *bundle.Bundle) []string {
 				}
 			}
 		}
-		keys = append(keys, cacheKey(p, diss))
+		k := cacheKey(p, diss)
+		byKid := map[string]string{}
+		for _, d := range diss {
+			if prev, ok := byKid[string(d.Nonce().KID)]; ok && prev != d.String() {
+				twoCandKeys[k] = true
+			}
+			byKid[string(d.Nonce().KID)] = d.String()
+		}
+		keys = append(keys, k)
 	}
 	return keys
 }
@@ -143,26 +165,108 @@ type cStep struct {
 func (w *bWorld) relatedHeaders() []string {
 	r := w.r
 	var hs []string
+	// prefer token families with several discharges (several tickets, or two candidates for one)
+	big := w.fams[0]
+	for _, f := range w.fams {
+		if len(f) > len(big) {
+			big = f
+		}
+	}
 	for k := 0; k < 2; k++ {
 		fam := pick(r, w.fams)
+		if k == 0 && r.Chance(2, 3) {
+			fam = big
+		}
 		all := strings.Join(fam, ",")
 		hs = append(hs, all, all, fam[0])
 		if len(fam) > 2 {
-			rev := append([]string{fam[0]}, fam[1:]...)
-			for i, j := 1, len(rev)-1; i < j; i, j = i+1, j-1 {
-				rev[i], rev[j] = rev[j], rev[i]
+			// re-presentations of the same header with the discharges permuted: across tickets the
+			// cache must still hit, within one ticket it must not hand out the other order's result
+			for n := 0; n < 3; n++ {
+				p := append([]string{}, fam[1:]...)
+				for i := len(p) - 1; i > 0; i-- {
+					j := r.Intn(i + 1)
+					p[i], p[j] = p[j], p[i]
+				}
+				if r.Bool() {
+					hs = append(hs, fam[0]+","+strings.Join(p, ","))
+				} else {
+					hs = append(hs, strings.Join(p, ",")+","+fam[0])
+				}
+				w.o.count("hdr.permuted")
 			}
-			hs = append(hs, strings.Join(rev, ","))
-			w.o.count("hdr.permuted")
 		}
 		if len(fam) > 1 {
 			hs = append(hs, strings.Join(fam[:len(fam)-1], ","))
 		}
 		hs = append(hs, all+","+all) // duplicates
 	}
-	for k := 0; k < 3; k++ {
+	for k := 0; k < 2; k++ {
 		hs = append(hs, w.header(1, 5))
 	}
+	return hs
+}
+
+// wideHeaders: ONE permission token with 7-10 third-party caveats (distinct locations) and two
+// acceptable discharges with different caveats for each ticket, i.e. 14-20 candidates for one
+// permission token — beyond the size (12) up to which Go's slices.SortFunc is an insertion sort and
+// therefore stable, so that an unstable sort by key-id shows as well.  The same token set is
+// presented in several random orders (same-ticket and cross-ticket permutations).
+func (w *bWorld) wideHeaders() []string {
+	r := w.r
+	kid := w.kids[0]
+	m, err := macaroon.New(kid, w.permLoc, w.keys[string(kid)])
+	if err != nil {
+		panic(err)
+	}
+	m.Add(&flyio.Organization{ID: 1, Mask: resset.ActionAll})
+	n := 7 + r.Intn(4)
+	var dis []string
+	for i := 0; i < n; i++ {
+		loc := fmt.Sprintf("https://tp%d.wide.example", i)
+		ka := r.Bytes(32)
+		if r.Bool() {
+			w.trusted[loc] = []macaroon.EncryptionKey{ka}
+		}
+		it, err := newTP(ka, loc)
+		if err != nil {
+			panic(err)
+		}
+		if err := m.Add(it.cav); err != nil {
+			panic(err)
+		}
+		for k := 0; k < 2; k++ {
+			_, dm, err := macaroon.DischargeTicket(ka, loc, it.tp.ticket)
+			if err != nil {
+				panic(err)
+			}
+			// the two candidates for a ticket impose different caveats
+			if k == 0 {
+				dm.Add(&flyio.Apps{Apps: resset.ResourceSet[uint64, resset.Action]{uint64(i + 1): resset.ActionAll}})
+			} else {
+				ro := resset.ActionRead
+				dm.Add(&ro, &flyio.Organization{ID: uint64(i + 1), Mask: resset.ActionRead})
+			}
+			dis = append(dis, b64tok(w.label(), mustEnc(dm)))
+		}
+	}
+	perm := b64tok("fm2", mustEnc(m))
+	w.o.count(fmt.Sprintf("wide.candidates.%d", len(dis)))
+	var hs []string
+	for v := 0; v < 6; v++ {
+		p := append([]string{}, dis...)
+		for i := len(p) - 1; i > 0; i-- {
+			j := r.Intn(i + 1)
+			p[i], p[j] = p[j], p[i]
+		}
+		if v == 5 { // one candidate missing
+			p = p[1:]
+		}
+		k := r.Intn(len(p) + 1)
+		all := append(append(append([]string{}, p[:k]...), perm), p[k:]...)
+		hs = append(hs, strings.Join(all, ","))
+	}
+	hs = append(hs, hs[0], hs[1]) // verbatim re-presentations as well
 	return hs
 }
 
@@ -206,6 +310,11 @@ func (w *bWorld) cacheEpisode(hookable bool, probe bool) {
 	o.count(fmt.Sprintf("size.%d", size))
 
 	related := w.relatedHeaders()
+	wide := !probe && r.Chance(1, 12)
+	if wide { // 14-20 candidate discharges for one permission token
+		related = w.wideHeaders()
+		o.count("hist.wide")
+	}
 	nb := 2 + r.Intn(4)
 	hdrs := make([]string, nb)
 	for i := range hdrs {
@@ -330,12 +439,18 @@ func (w *bWorld) cacheEpisode(hookable bool, probe bool) {
 						continue
 					}
 					o.count("cache.hit")
+					if twoCandKeys[k] {
+						o.count("cache.hit.twoCandidatesForOneTicket")
+					}
 					if at, ok := successAt[k]; !ok || !(ttlTicks > 0) || !mirror[k] {
 						justify = append(justify, fmt.Sprintf("unjustified:step%d:prev%d", stepNo, at))
 					}
 				}
 				for _, k := range inner.calls {
 					o.count("cache.miss")
+					if twoCandKeys[k] {
+						o.count("cache.miss.twoCandidatesForOneTicket")
+					}
 					if inner.ok[k] {
 						mirror[k] = true
 						successAt[k] = stepNo
@@ -418,10 +533,13 @@ func (w *bWorld) cacheEpisode(hookable bool, probe bool) {
 		for i, h := range hdrs {
 			hx[i] = hs(h)
 		}
-		op := fmt.Sprintf("(cache.run (sem %s) (scope %s) %s %s %s (ttl %d) (hdrs %s) %s)", cacheSem, bundleScope, w.sxKeys(), sxTrust(w.trusted),
+		op := fmt.Sprintf("(cache.run (sem %s) (order %s) (scope %s) %s %s %s (ttl %d) (hdrs %s) %s)", cacheSem, cacheOrder, bundleScope, w.sxKeys(), sxTrust(w.trusted),
 			hs(w.permLoc), ttlTicks, strings.Join(hx, " "), strings.Join(opsSx, " "))
 		c, d := strings.Join(outC, " | "), strings.Join(outD, " | ")
 		verdict := "transparent"
+		if twoCandidates(w.permLoc, hdrs) {
+			o.count("hist.twoCandidates")
+		}
 		if stripCalls(c) == d {
 			o.count("go.transparent")
 		} else if twoCandidates(w.permLoc, hdrs) {
